@@ -96,6 +96,7 @@ def main():
     ap.add_argument("--replay")
     ap.add_argument("--verbose", "-v", action="store_true")
     ap.add_argument("--only", help="only units whose name contains this")
+    ap.add_argument("--write-baseline", action="store_true", help="record the obligations discharged on this (unchanged) tree")
     a = ap.parse_args()
     tier = os.environ.get("VERIF_TIER") or a.tier
     if tier not in ("quick", "thorough"):
@@ -131,6 +132,10 @@ def main():
             lemma_results.append(f.result())
 
     findings = load_known(prop)
+    keys_seen = {}
+    bfile = os.path.join(ROOT, "baseline_obligations.json")
+    baseline_all = json.load(open(bfile)) if os.path.exists(bfile) else {}
+    baseline = set(baseline_all.get(prop, []))
     exit_code = 0
     violations = []
     undecided = []
@@ -157,6 +162,11 @@ def main():
             n_real += 1
             full = f"{prop}/{r['name']}[{r['self_cls']}]::{ob['name']}" if r["self_cls"] else f"{prop}/{ob['name']}"
             ob["full"] = full
+            kc = ob["kind"].split(":")[0] if ob["kind"].startswith("raises-unexpected") else ("post" if ob["kind"].startswith("post.") else ob["kind"])
+            ob["key"] = f"{r['name']}[{r['self_cls']}]::{kc}"
+            keys_seen.setdefault(ob["key"], True)
+            if ob["status"] != "unsat":
+                keys_seen[ob["key"]] = False
             if ob["status"] == "unsat":
                 n_dis += 1
                 backends[ob["backend"]] = backends.get(ob["backend"], 0) + 1
@@ -212,9 +222,13 @@ def main():
             confirmed = True
         with open(path, "w") as f:
             json.dump(rep, f, indent=1, default=str)
-        if ob["status"] == "candidate" and not confirmed:
-            undecided.append(ob["full"] + " (candidate model of weakened hypotheses, not confirmed natively)")
+        if ob["status"] == "candidate" and not confirmed and ob.get("key") not in baseline:
+            undecided.append(ob["full"] + " (not proved; no native failing input; obligation is not in the baseline of the unchanged tree)")
             continue
+        if ob["status"] == "candidate" and not confirmed:
+            rep["note"] = "this obligation is discharged on the unchanged tree (baseline_obligations.json) and is no longer provable"
+            with open(path, "w") as f:
+                json.dump(rep, f, indent=1, default=str)
         n_viol += 1
         tail = "" if confirmed else " no-failing-input-found"
         lines.append(f"VIOLATION property={prop} replay={path}{tail}")
@@ -228,6 +242,10 @@ def main():
         problems.append("no checks registered for this property")
         exit_code = 3
 
+    if a.write_baseline:
+        baseline_all[prop] = sorted(k for k, ok in keys_seen.items() if ok)
+        with open(bfile, "w") as f:
+            json.dump(baseline_all, f, indent=0, sort_keys=True)
     wall = time.time() - t_start
     level = call.LEVEL.get(prop, "proof")
     assumptions = list(LIB_ASSUMPTIONS) + call.ASSUMPTIONS.get("*", []) + call.ASSUMPTIONS.get(prop, [])
@@ -315,22 +333,41 @@ def native_replay(prop, r, ob, rep):
     """run the replay driver of the function family (real finam under /venv/bin/python)"""
     import contracts.all as call
 
-    drv = call.REPLAY.get((r["unit"], r["self_cls"])) or call.REPLAY.get(r["unit"])
-    if drv is None:
+    drvs = call.REPLAY.get((r["unit"], r["self_cls"])) or call.REPLAY.get(r["unit"])
+    if drvs is None:
         return False, "no replay driver for this function: counterexample not replayed"
-    tmp = os.path.join(ROOT, "replay", prop, ".witness.json")
+    if isinstance(drvs, str):
+        drvs = [drvs]
+    tmp = os.path.join(ROOT, "replay", prop, f".witness.{os.getpid()}.json")
     with open(tmp, "w") as f:
         json.dump(rep, f, default=str)
+    details = []
     try:
-        out = subprocess.run([VENV_PY, os.path.join(ROOT, "replay", "drivers", drv), tmp], capture_output=True, text=True,
-                             timeout=300, env={**os.environ, "PYTHONPATH": os.path.join(os.environ.get("VERIF_REPO", "/repo"), "src")})
-    except subprocess.TimeoutExpired:
-        return False, "replay driver timed out"
+        for drv in drvs:
+            key = (drv, "generic") if drv.startswith("seq_") else None
+            if key is not None and key in _REPLAY_CACHE:
+                ok, txt = _REPLAY_CACHE[key]
+            else:
+                try:
+                    out = subprocess.run([VENV_PY, os.path.join(ROOT, "replay", "drivers", drv), tmp], capture_output=True, text=True,
+                                         timeout=600, env={**os.environ, "PYTHONPATH": os.path.join(os.environ.get("VERIF_REPO", "/repo"), "src")})
+                    lines = [l for l in out.stdout.splitlines() if l.startswith(("CONFIRMED", "NOT-CONFIRMED"))]
+                    ok = bool(lines) and lines[-1].startswith("CONFIRMED")
+                    txt = (lines[-1] if lines else (out.stdout + out.stderr)[-1500:])
+                except subprocess.TimeoutExpired:
+                    ok, txt = False, "replay driver timed out"
+                if key is not None:
+                    _REPLAY_CACHE[key] = (ok, txt)
+            details.append(f"{drv}: {txt}")
+            if ok:
+                return True, " | ".join(details)
+        return False, " | ".join(details)
     finally:
         if os.path.exists(tmp):
             os.unlink(tmp)
-    txt = (out.stdout + out.stderr).strip()
-    return "CONFIRMED" in out.stdout and "NOT-CONFIRMED" not in out.stdout, txt[-3000:]
+
+
+_REPLAY_CACHE = {}
 
 
 def run_bounded(b, tier, seed):
